@@ -1,6 +1,7 @@
 package c15
 
 import (
+	"os"
 	"bytes"
 	"encoding/json"
 	"fmt"
@@ -137,7 +138,9 @@ func (cr *caseRun) printWith(fn string, v *Val) string {
 		obj = v.Ref.(slip.Object)
 	}
 	scope.Let(slip.Symbol("c15-p"), obj)
-	r, err := lisp.EvalIn(scope, envWrap(cr.env, "("+fn+" c15-p)"))
+	// princ / prin1 themselves (the statement names them), written to a string stream; not the
+	// -to-string variants, which are separate functions.
+	r, err := lisp.EvalIn(scope, envWrap(cr.env, "(let ((c15-s (make-string-output-stream))) ("+fn+" c15-p c15-s) (get-output-stream-string c15-s))"))
 	if err != nil {
 		undef("%s failed: %s", fn, err.String())
 	}
@@ -151,13 +154,13 @@ func (cr *caseRun) printWith(fn string, v *Val) string {
 func (cr *caseRun) newRef(mut int) *Ref {
 	return &Ref{
 		Mut:   mut,
-		Princ: func(v *Val) string { return cr.printWith("princ-to-string", v) },
-		Prin1: func(v *Val) string { return cr.printWith("prin1-to-string", v) },
+		Princ: func(v *Val) string { return cr.printWith("princ", v) },
+		Prin1: func(v *Val) string { return cr.printWith("prin1", v) },
 		CharName: func(c rune) string {
 			if c == ' ' {
 				return "Space"
 			}
-			s := cr.printWith("prin1-to-string", &Val{Kind: 'c', C: c, Ref: slip.Character(c)})
+			s := cr.printWith("prin1", &Val{Kind: 'c', C: c, Ref: slip.Character(c)})
 			return strings.TrimPrefix(s, `#\`)
 		},
 	}
@@ -639,6 +642,9 @@ func (cr *caseRun) reduce(v verdict) (*caseRun, verdict) {
 		changed = false
 		try := func(cand *caseRun) bool {
 			runs++
+			if !surelyTerminates(cand) {
+				return false
+			}
 			cv := cand.judge(refMutNone)
 			if cv.kind != "" && cv.category == curV.category {
 				cur, curV = cand, cv
@@ -676,6 +682,89 @@ func (cr *caseRun) reduce(v verdict) (*caseRun, verdict) {
 	return cur, curV
 }
 
+// surelyTerminates is a conservative syntactic check used on reduction candidates: every iteration
+// block (also in control strings passed as arguments) has a body that consumes an argument on every
+// pass and never moves the argument pointer back. A candidate that fails the check is not tried, so
+// that a defect which sends slip into a block the definitions would skip cannot hang the reduction.
+func surelyTerminates(cr *caseRun) (ok bool) {
+	defer func() {
+		if rec := recover(); rec != nil {
+			ok = false
+		}
+	}()
+	var check func(l []*node, inIter bool) bool
+	advances := func(body []*node) bool {
+		for _, n := range body {
+			switch n.ch {
+			case 'A', 'S', 'D', 'B', 'O', 'X', 'C', 'R':
+				return true
+			case '{':
+				if !n.at {
+					return true
+				}
+			}
+		}
+		return false
+	}
+	check = func(l []*node, inIter bool) bool {
+		for _, n := range l {
+			if inIter {
+				if n.ch == '*' && (n.colon || n.at) {
+					return false
+				}
+				if n.ch == 'P' && n.colon {
+					return false
+				}
+				if n.ch == '?' {
+					return false
+				}
+			}
+			switch n.ch {
+			case '{':
+				if !advances(n.body) || !check(n.body, true) {
+					return false
+				}
+			case '(':
+				if !check(n.body, inIter) {
+					return false
+				}
+			case '[':
+				for _, c := range n.clauses {
+					if !check(c, inIter) {
+						return false
+					}
+				}
+			}
+		}
+		return true
+	}
+	if !check(parseControl(cr.control), false) {
+		return false
+	}
+	var argsOK func(o slip.Object) bool
+	argsOK = func(o slip.Object) bool {
+		switch t := o.(type) {
+		case slip.String:
+			if strings.Contains(string(t), "~") {
+				return check(parseControl(string(t)), false)
+			}
+		case slip.List:
+			for _, e := range t {
+				if !argsOK(e) {
+					return false
+				}
+			}
+		}
+		return true
+	}
+	for _, a := range cr.args {
+		if !argsOK(a) {
+			return false
+		}
+	}
+	return true
+}
+
 func argClass(o slip.Object) string {
 	switch t := o.(type) {
 	case nil:
@@ -694,6 +783,9 @@ func argClass(o slip.Object) string {
 		}
 		return "+big"
 	case slip.String:
+		if len(t) == 0 {
+			return "string:empty"
+		}
 		for _, c := range string(t) {
 			if 127 < c {
 				return "string:non-ascii"
@@ -713,6 +805,9 @@ func argClass(o slip.Object) string {
 	case slip.Symbol:
 		return "symbol"
 	case slip.List:
+		if len(t) == 0 {
+			return "empty-list"
+		}
 		return "list"
 	case *slip.Ratio:
 		return "ratio"
@@ -827,7 +922,10 @@ func exec(spec string) (res engine.Result) {
 		}
 		return
 	}
-	min, mv := cr.reduce(v)
+	min, mv := cr, v
+	if os.Getenv("C15_NOREDUCE") == "" {
+		min, mv = cr.reduce(v)
+	}
 	detail := v.detail
 	if min != cr {
 		detail = "reduced: " + mv.detail + " || original: " + v.detail
